@@ -79,7 +79,7 @@ impl OpSource for ListSource {
 }
 
 fn family(rng: &mut Rng, k: u64) -> (String, Vec<String>) {
-    match k % 11 {
+    match k % 12 {
         0 => ("same-6-prefix".into(), (0..60 + rng.below(200)).map(|i| format!("longfilename{}.txt", i)).collect()),
         1 => {
             let n = 14 + rng.usize_below(8);
@@ -138,6 +138,19 @@ fn family(rng: &mut Rng, k: u64) -> (String, Vec<String>) {
                 v.push(format!("file{}.t", i));
             }
             ("exact-8.3-and-case".into(), v)
+        }
+        10 => {
+            // every ASCII punctuation character that a long name may contain, inside the part of the name that ends up
+            // in the alias (first characters, extension) and in names that fit 8.3 as they are
+            let mut v: Vec<String> = Vec::new();
+            for c in "!#$%&'()-@^_`{}~+,;=[] .".chars() {
+                v.push(format!("a{}b.t{}t", c, c));
+                v.push(format!("{}{} long name with it.{}x", c, c, c));
+                v.push(format!("xy{}{}zw more than eight.dat", c, c));
+                v.push(format!("q{}", c));
+            }
+            v.retain(|n| !n.ends_with(' ') && !n.ends_with('.'));
+            ("punctuation".into(), v)
         }
         9 => {
             // the checksum-suffixed form exhausted at the top of the 16-bit range: the retry has to wrap to 0000
